@@ -386,6 +386,20 @@ func genCLI(out *bufio.Writer, rng *rand.Rand, count int) int {
 	return count
 }
 
+// sim0Listing: the listing the library prints for w under cfg (used only to know how long the
+// first file's listing is when two files are given to -A)
+func sim0Listing(cfg gmars.SimulatorConfig, w gmars.WarriorData) string {
+	sim, err := gmars.NewSimulator(cfg)
+	if err != nil {
+		return ""
+	}
+	h, err := sim.AddWarrior(&w)
+	if err != nil {
+		return ""
+	}
+	return h.LoadCode()
+}
+
 // genCLIList (clilist, C16): the text behind the -A option of the built command, for flag
 // vectors and presets; the configuration is the one the options describe (built here from
 // NewQuickConfig / PresetConfig), the expected warrior is what CompileWarrior returns for the
@@ -456,6 +470,7 @@ func genCLIList(out *bufio.Writer, rng *rand.Rand, count int) int {
 			args = append(args, "-r", fmt.Sprint(1+rng.Intn(5)))
 		}
 		args = append(args, "-A")
+		twoFiles := 0
 		var src []byte
 		if rng.Intn(4) == 0 && !legacy {
 			src = []byte(knownWarriors[rng.Intn(len(knownWarriors))])
@@ -468,6 +483,19 @@ func genCLIList(out *bufio.Writer, rng *rand.Rand, count int) int {
 		}
 		p := filepath.Join(dir, fmt.Sprintf("a%d.red", n))
 		os.WriteFile(p, src, 0o644)
+		if rng.Intn(6) == 0 {
+			// a first file with the same base name in another directory: what is listed for a file
+			// is that file's warrior (only the second listing is compared)
+			other := cliWarrior(rng, ln, legacy)
+			if ow, oerr := gmars.CompileWarrior(bytes.NewReader(other), cfg); oerr == nil && len(ow.Code) > 0 {
+				od := filepath.Join(dir, fmt.Sprintf("d%d", n))
+				os.MkdirAll(od, 0o755)
+				op := filepath.Join(od, fmt.Sprintf("a%d.red", n))
+				os.WriteFile(op, other, 0o644)
+				args = append(args, op)
+				twoFiles = len(sim0Listing(cfg, ow)) + 1
+			}
+		}
 		args = append(args, p)
 		ctx, cancel := context.WithTimeout(context.Background(), 30*time.Second)
 		cmd := exec.CommandContext(ctx, bin, args...)
@@ -484,6 +512,9 @@ func genCLIList(out *bufio.Writer, rng *rand.Rand, count int) int {
 			resp = "panic:exit " + strings.ReplaceAll(strings.TrimSpace(rerr.Error()), " ", "_")
 		default:
 			text := so.String()
+			if twoFiles > 0 && len(text) >= twoFiles {
+				text = text[twoFiles:] // skip the first file's listing (and its newline)
+			}
 			text = strings.TrimSuffix(text, "\n") // Println adds one newline after the listing
 			resp = hexd([]byte(text))
 		}
